@@ -1,12 +1,12 @@
 PROP = dict(
     id='C03', level='exploration',
-    pyvc=['contracts.c03'],
+    pyvc=['contracts.c03', ['contracts.c03b']],
     finite=[],
     bounded='bounded.c03',
     bounded_budget=dict(quick=45, thorough=420),
     assumptions=[],
     trusted_base=['z3 5.1 / cvc5 1.0.3', 'pyvc symbolic executor and its encoding of Python (DESIGN.md section 2.3)', 'CPython 3.12, PLY 3.11 (A-PLY)'],
-    manifest=dict(text='Deductive core (tier P, 7 obligations): _is_null and MetaClass._is_null_value (which values count as null keys). Bounded: loaded links compared with the key-matching rule on all multisets of rows over null/unset/zero/ordinary keys; all permutations of <=6 statements, all splits, 8 packaging layouts; API and clone routes.',
+    manifest=dict(text='Deductive core (tier P, 21 obligations): _is_null and MetaClass._is_null_value (which values count as null keys); Link.compute_lookup_key and compute_index_key return no key as soon as one component is null (variants @null-component: the exit that returns the frozenset is a named obligation proved unreachable). Bounded: loaded links compared with the key-matching rule on all multisets of rows over null/unset/zero/ordinary keys; all permutations of <=6 statements, all splits, 8 packaging layouts; API and clone routes.',
                   note='PLY, os.walk, zipfile (A-IO).',
                   technique='bounded stand-in (run-time contracts on the real functions driven by small-scope enumeration; labelled bounded, never counted as proved) decides the property sentence; contract-based deductive verification: sidecar contracts on the real functions, verification conditions generated from the current source of /repo on every run by pyvc (Python AST -> z3/cvc5), every obligation discharged function by function for the listed kernel functions, reported separately as tier P'),
 )
